@@ -592,15 +592,17 @@ Definition close_upvalues_by_idx (up : upvalue_oracle) (m : mach) (c : key) : ou
       end
   end.
 
+(* `if let Some(closure) = self.closures.get_mut(closure_idx.0) { closure.refcount += 1 }` *)
+Definition retain_closure (m : mach) (c : key) : mach * list event :=
+  match sm_get (m_cl m) c with
+  | Some co => (mkMach (sm_set (m_cl m) c (mkObj (orc co + 1) (oclosed co) (odata co))) (m_hp m),
+                [ev SC ERetain c (Some (orc co + 1))])
+  | None => (m, [])
+  end.
+
 (* Instruction::CloneHeap(src) on the raw register value *)
 Definition clone_heap (m : mach) (raw : N) : mach * list event :=
   let mark := mkEv SH (EMark 3) (mkKey (N.land raw 4294967295) (N.shiftr raw 32)) (Some 0) in
-  let retain_closure (m : mach) (c : key) : mach * list event :=
-    match sm_get (m_cl m) c with
-    | Some co => (mkMach (sm_set (m_cl m) c (mkObj (orc co + 1) (oclosed co) (odata co))) (m_hp m),
-                  [ev SC ERetain c (Some (orc co + 1))])
-    | None => (m, [])
-    end in
   let (hb, e1) := try_get_heap_backed_closure m raw in
   match hb with
   | Some (hk, ck) =>
